@@ -43,7 +43,7 @@ def variant(rng, a):
 
 
 def generate(ctx):
-    n = 300 if ctx.tier == "quick" else 4000
+    n = 600 if ctx.tier == "quick" else 8000
     rng = ctx.rng
     cases = []
     for i in range(n):
